@@ -71,7 +71,8 @@ def check_otsvg_font(ctx, res, case, out, npts=9):
             if not src.leaves:
                 continue
             unorm = max(1e-6, math.sqrt(abs(user[0] * user[3] - user[1] * user[2])))
-            d_font = 1.5 * max(1.0, unorm) + 0.002 * cfg.upem
+            tol_vb = max(cfg.reuse_tolerance, 0.0) if case["fmt"].startswith("picosvg") else 0.0
+            d_font = 1.5 * max(1.0, unorm) + 0.002 * cfg.upem + tol_vb * s * unorm
             d_svg = d_font / (s * unorm)
             pts = render.grid_points(vb[0], vb[1], vb[2], vb[3], npts, ctx.rng)
             for lf in src.leaves[:8]:
@@ -91,7 +92,30 @@ def check_otsvg_font(ctx, res, case, out, npts=9):
             res.add_cex("OT-SVG document cannot be rendered: " + str(e), {"case": case, "glyph": g, "gid": gid}, {"site": "otsvg-unsupported", "case": case["id"], "glyph": i})
 
 
+def shared_radial_case(rng, fmt="picosvg"):
+    """two glyphs drawing a shape and a non-uniformly (origin-)scaled copy of it with the SAME userSpaceOnUse radial gradient:
+    after reuse the two gradients have equal folded geometry but different leftover gradientTransform"""
+    x, y, w, h = rng.randint(5, 15), rng.randint(8, 20), rng.randint(20, 30), rng.randint(20, 30)
+    sx, sy = rng.choice([(2, 1), (1, 2), (1.5, 0.5), (0.5, 1.5), (2, 2)])
+    cx, cy, r = x + w * rng.choice([0.4, 0.5]), y + h * rng.choice([0.5, 0.6]), rng.choice([18, 22, 26])
+    stops = "".join(f'<stop offset="{o}" stop-color="{c}"/>' for o, c in zip((0, 0.5, 1), rng.sample(fontgen.HEX[:7], 3)))
+    grad = f'<radialGradient id="g" gradientUnits="userSpaceOnUse" cx="{cx}" cy="{cy}" r="{r}">{stops}</radialGradient>'
+    rect = lambda a, b, c, d: f"M{a},{b} L{a + c},{b} L{a + c},{b + d} L{a},{b + d} Z"
+    svgs = [f'<svg xmlns="http://www.w3.org/2000/svg" viewBox="0 0 100 100"><defs>{grad}</defs><path d="{rect(x, y, w, h)}" fill="url(#g)"/></svg>',
+            f'<svg xmlns="http://www.w3.org/2000/svg" viewBox="0 0 100 100"><defs>{grad}</defs><path d="{rect(x * sx, y * sy, w * sx, h * sy)}" fill="url(#g)"/>'
+            f'<path d="M60,70 L80,70 L70,90 Z" fill="#00AA00"/></svg>']
+    cfg = {"color_format": fmt, "upem": 1000, "ascender": 1000, "descender": 0, "width": 1000, "reuse_tolerance": 0.1, "keep_glyph_names": True}
+    return {"id": f"shared-radial:{fmt}:{rng.getrandbits(32)}", "seed": 0, "fmt": fmt, "svgs": svgs, "config": cfg, "codepoints": [[0xE000], [0xE001]]}
+
+
 def suite_fonts(ctx, res, n):
+    for _ in range(max(2, n // 10)):
+        case = shared_radial_case(ctx.rng, ctx.rng.choice(["picosvg", "picosvgz"]))
+        out = fontgen.build(case)
+        res.count(key=("font", case["id"]), nontrivial=True)
+        if "err" not in out:
+            res.stat("build:ok:shared-radial")
+            check_otsvg_font(ctx, res, case, out)
     for k, case in enumerate(fontgen.gen_cases(ctx.rng, n, formats=FORMATS)):
         if case["fmt"].startswith("picosvg") and case["config"].get("transform") == "matrix(1 0 0.25 1 0 0)":
             # known finding (corpus/C02/known.json): radial gradients under a non-similarity user transform; random
